@@ -27,6 +27,7 @@ type TypedSide struct {
 	SawSum   string `json:"saw_sum,omitempty"`
 	RespSum  string `json:"resp_sum,omitempty"`
 	RespType string `json:"resp_type,omitempty"`
+	RespSum2 bool   `json:"resp_has_sum,omitempty"`
 }
 
 type TypedRec struct {
@@ -36,6 +37,7 @@ type TypedRec struct {
 	GotValue  bool         `json:"got_value"`
 	GotSum    string       `json:"got_sum,omitempty"`
 	GotType   string       `json:"got_type,omitempty"`
+	SentSum2  bool         `json:"sent_has_sum,omitempty"`
 	Harness   string       `json:"harness,omitempty"`
 	Problems  []string     `json:"problems,omitempty"`
 	Defaults  int          `json:"defaults"`
@@ -292,7 +294,11 @@ func typedDeliver(r *CRecord, pkg string, ds *deliverSet) []problem {
 	}
 	var out []problem
 	rs := reachedSide(t)
-	if ds.req[opKey(&r.Call)] {
+	// Which variant of a sum of number kinds a number of the whole width selects (an integral 1e21: integer or
+	// number?) is the document's ambiguity, and the answer may be "neither fits": where a sum type is involved,
+	// delivery of wide values is not demanded (exactness still is).
+	wide := r.Call.Edge
+	if ds.req[opKey(&r.Call)] && !(wide && t.SentSum2) {
 		if rs == nil {
 			st := 0
 			if len(r.Sides) > 0 {
@@ -304,7 +310,7 @@ func typedDeliver(r *CRecord, pkg string, ds *deliverSet) []problem {
 			out = append(out, problem{"core-domain values are always delivered (request)", fmt.Sprintf("call t%d.o%d %s (value seed %d): the handler was not reached: server status %d, client error %q", r.Task, r.Op, r.Call.TOp, r.Call.V, st, r.ClientErr), keyOf("typed/undelivered request/" + pkg + "/" + r.Call.TOp)})
 		}
 	}
-	if rs != nil && rs.RespType != "" && ds.resp[opKey(&r.Call)+" "+rs.RespType] {
+	if rs != nil && rs.RespType != "" && ds.resp[opKey(&r.Call)+" "+rs.RespType] && !(wide && rs.RespSum2) {
 		if !t.GotValue {
 			out = append(out, problem{"core-domain values are always delivered (response)", fmt.Sprintf("call t%d.o%d %s (value seed %d): the handler returned %s, the caller got error %q", r.Task, r.Op, r.Call.TOp, r.Call.V, rs.RespType, r.ClientErr), keyOf("typed/undelivered response/" + pkg + "/" + r.Call.TOp + "/" + rs.RespType)})
 		}
